@@ -35,6 +35,11 @@
      [BBlock m i j]   self._second_order_measures.<m>.blocks[i][j], m a 2-D measure
      [BMBlock m k]    self._second_order_measures.<m>.blocks[k],     m a marginal
      [BSliceAttr a]   self._slice.<a>   (min_base_size_mask.py)      [BSize]  self._size
+     [BArg p]         self._<p>, a constructor argument (scalar.py)  [BConstZ z]  an integer literal
+   and a condition may ask whether the TYPE of a dimension is in one of the frozensets of
+   enums.DIMENSION_TYPE ([QDimTypeIn d "ARRAY_TYPES"]: the environment carries the type's name and
+   the sets, Gen/Tables.v [tbl_DT_sets]).  [carg] / [cmexp] at the end: which factory
+   stripe/cubemeasure.py's CubeMeasures calls on which arguments (`a if a is not None else b`).
    The SUBTOTAL STRATEGIES are not re-read here: [BSum] / [BNanSub] / [BVSum] / [BVNanSub] record
    WHICH classmethod of matrix/subtotals.py / stripe/insertion.py is called on WHICH cube-measure
    array with WHICH flags; the meaning is a field of the environment, instantiated in
@@ -73,6 +78,8 @@ Inductive bexp :=
 | BMBlock (m : string) (k : nat)
 | BSliceAttr (a : string)
 | BSize
+| BArg (p : string)                         (* self._<p>, p a constructor parameter (scalar.py) *)
+| BConstZ (z : Z)                           (* an integer literal *)
 | BSum (dcn drn : bfl) (c a : string) (bi bj : nat)
       (* SumSubtotals.blocks(cube c.a, dims, diff_cols_nan=dcn, diff_rows_nan=drn)[bi][bj];
          .subtotal_columns = [0][1], .subtotal_rows = [1][0], .intersections = [1][1] *)
@@ -103,6 +110,7 @@ with bcond :=
 | QShapeIs (h : bshape) (l : list nat)      (* h == (k, ..) *)
 | QIsNone (e : bexp)                        (* e is None *)
 | QFlag (m a : string)                      (* self._second_order_measures.<m>.<a>, a boolean *)
+| QDimTypeIn (d : nat) (set : string)       (* self._dimensions[d].dimension_type in DT.<set> *)
 | QNot (c : bcond).
 
 (* ------------------------------------------------------------------------------------ *)
@@ -125,6 +133,9 @@ Record benv := mkBenv {
   g_mflag : string -> string -> bool;
   g_slice : string -> bval;
   g_size : bval;
+  g_arg : string -> bval;                    (* constructor arguments by parameter name *)
+  g_dimtype : nat -> string;                 (* name of the dimension type of dimension d *)
+  g_dtsets : list (string * list string);    (* the frozensets of DIMENSION_TYPE, by name *)
   (* SumSubtotals: diff_cols_nan, diff_rows_nan, cube operand, block: the block's cells *)
   g_sum2 : bool -> bool -> string -> string -> nat -> nat -> nat -> nat -> xq;
   (* stripe SumSubtotals.subtotal_values on a vector *)
@@ -195,6 +206,14 @@ Fixpoint list_eqb (a b : list nat) : bool :=
   | _, _ => false
   end.
 
+Definition in_set (t : string) (l : list string) : bool := existsb (String.eqb t) l.
+
+Fixpoint str_assoc {A} (k : string) (l : list (string * A)) : option A :=
+  match l with
+  | [] => None
+  | (k', v) :: t => if String.eqb k k' then Some v else str_assoc k t
+  end.
+
 (* ------------------------------------------------------------------------------------ *)
 (** * the meaning of a term *)
 
@@ -205,6 +224,8 @@ Fixpoint beval (E : benv) (e : bexp) {struct e} : bval :=
   | BMBlock m k => g_mblock E m k
   | BSliceAttr a => g_slice E a
   | BSize => g_size E
+  | BArg p => g_arg E p
+  | BConstZ z => WScal (Fin (inject_Z z))
   | BSum dcn drn c a bi bj =>
       match g_cube E c a, blk_rows (g_nr E) (g_nrs E) bi, blk_rows (g_nc E) (g_ncs E) bj with
       | WMat r c' _, Some R, Some C =>
@@ -310,7 +331,31 @@ with bceval (E : benv) (c : bcond) {struct c} : option bool :=
   | QShapeIs h l => match heval E h with Some s => Some (list_eqb s l) | None => None end
   | QIsNone a => match beval E a with WNone => Some true | WErr => None | _ => Some false end
   | QFlag m a => Some (g_mflag E m a)
+  | QDimTypeIn d set =>
+      match str_assoc set (g_dtsets E) with
+      | Some l => Some (in_set (g_dimtype E d) l)
+      | None => None
+      end
   | QNot a => match bceval E a with Some b => Some (negb b) | None => None end
+  end.
+
+(* ------------------------------------------------------------------------------------ *)
+(** * stripe/cubemeasure.py: what CubeMeasures hands to the factories *)
+
+(* an argument of a factory call in CubeMeasures *)
+Inductive carg :=
+| KField (p : string)                    (* self._<p>, p a constructor parameter of CubeMeasures *)
+| KCube (a : string)                     (* self._cube.<a> *)
+| KOrElse (a b : carg).                  (* a if a is not None else b *)
+(* <Base>.factory(args) *)
+Inductive cmexp := CMFactory (base : string) (args : list carg).
+
+(* the value of an argument: [None] is Python's None *)
+Fixpoint carg_eval {A} (field cube : string -> option A) (a : carg) : option A :=
+  match a with
+  | KField p => field p
+  | KCube x => cube x
+  | KOrElse x y => match carg_eval field cube x with Some v => Some v | None => carg_eval field cube y end
   end.
 
 (* ------------------------------------------------------------------------------------ *)
